@@ -152,6 +152,9 @@ pub fn run(a: &Args) -> Report {
             if t.starts_with("(union") {
                 unions += 1;
             }
+            if run::skip_run_on_large_db(&eg, &t) {
+                continue;
+            }
             let o = run::run(&mut eg, &t);
             log.push(t);
             if let Outcome::Panic(_) = o {
